@@ -1192,6 +1192,10 @@ class HfpAgDriver(RfcommDriver):
         got = await self.atk.until(lambda: bytes(rfs.rx) if rfs.rx.endswith(b'\r\n') and len(rfs.rx) >= 6 else None)
         if got == b'\r\nOK\r\n':
             return []
+        if got is not None and got.endswith(b'\r\n\r\nOK\r\n'):
+            # the command got its OK; what precedes are late answers to earlier hostile lines
+            self.env.r.ev('late_answers_to_earlier_lines')
+            return []
         ag = self.env.ag
         stuck = bytes(ag.read_buffer[:60]) if ag is not None else b''
         if got is None and not rfs.rx:
